@@ -417,7 +417,7 @@ func c04Run(c *Ctx) {
 func init() {
 	register(&CheckDef{
 		ID: "C04", Build: "instr", Run: c04Run, RunCase: c04RunCase, Risky: true,
-		Rule:        "states = ALL digraphs on <= 2 nodes (reachable or not) and all digraphs on 3 nodes up to isomorphism, over 5 placements, edge forms including the bare $ref (ill-founded loops), ids on any node (absolute, relative file, relative directory, fragment, parent-relative), every kind of unresolvable target (incl. JSON null) with and without refused documents, pure reference cycles of parameters / responses / path items of length 1-3 within and across documents, and the deterministic scaling families ring, ladder, diamond, complete; each through every entry point (ExpandSpec x 4 option combinations, ExpandSchema with typed/generic/nil root, ExpandSchemaWithBasePath, ExpandParameter[WithRoot], ExpandResponse[WithRoot], Resolve*); oracle: a result or an error within a step budget linear in the acyclic unfolding of the input, no panic, no process death",
+		Rule:        "states = ALL digraphs on <= 2 nodes (reachable or not) and all digraphs on 3 nodes up to isomorphism (thorough: all of them), over 5 placements, every spelling of the references, target shapes held in a map / a list / by pointer, edge forms including the bare $ref (ill-founded loops), ids on any node (absolute, relative file, relative directory, fragment, parent-relative), every kind of unresolvable target (incl. JSON null) with and without refused documents, pure reference cycles of parameters / responses / path items of length 1-3 within and across documents, and the deterministic scaling families ring, ladder, diamond, complete; each through every entry point (ExpandSpec x 4 option combinations, ExpandSchema with typed/generic/nil root, ExpandSchemaWithBasePath, ExpandParameter[WithRoot], ExpandResponse[WithRoot], Resolve*); oracle: a result or an error within a step budget linear in the acyclic unfolding of the input, no panic, no process death",
 		Assumptions: []string{"work is counted in instrumented function entries of package spec (deterministic), budget = 1000 x unfolding + 5000 steps (about 10x the largest ratio observed on the unchanged tree); the maximum observed ratio is in the counters", "random large graphs are replaced by deterministic scaling families (random sampling is outside this technique)"},
 		MinOutcomes: 2,
 	})
